@@ -224,6 +224,10 @@ bool XmlNode::isComment() const
 
 std::string XmlNode::name() const
 {
+    // Some nodes have no name (e.g., a CDATA section).
+    if (mPimpl->mXmlNodePtr->name == nullptr) {
+        return {};
+    }
     return reinterpret_cast<const char *>(mPimpl->mXmlNodePtr->name);
 }
 
